@@ -55,11 +55,14 @@ pub fn method_ok_k(api: i64, st: u8, m: i64, borrows: bool) -> bool {
 /// Expected observation log of an entry chain, and its effect on the model.
 /// `ks` = serial of the key handed to entry()/rustc_entry() (0 for by-reference flavours),
 /// `k2` = serials of spare key instances handed to raw inserts / insert_key.
-pub fn model_chain(model: &mut MapModel, api: i64, kid: u32, ks: u32, methods: &[i64], vals: &[(u32, u32)], k2: &[u32], tgl: u32, borrows: bool, vfresh: u32) -> Vec<Ev> {
+pub fn model_chain(model: &mut MapModel, api: i64, kid: u32, ks: u32, methods: &[i64], vals: &[(u32, u32)], k2: &[u32], tgl: u32, borrows: bool, vfresh: u32, ikid: u32) -> Vec<Ev> {
     let mut log = Vec::new();
     let mut st = 0u8; // 0 E, 1 O, 2 V, 3 done
     let mut eks = if api == 1 { FRESH } else { ks };
     let raw = (2..=4).contains(&api);
+    // raw entries may insert a key other than the one that was looked up (`ikid != kid`): the chain then ends with
+    // the insertion
+    let foreign = ikid != kid;
     let mut vi = 0usize;
     let mut ki = 0usize;
     let mut next_val = || {
@@ -89,9 +92,9 @@ pub fn model_chain(model: &mut MapModel, api: i64, kid: u32, ks: u32, methods: &
                         model.e[i].v = v.0;
                         model.e[i].vs = v.1;
                     }
-                    None => model.e.push(ME { kid, ks: newk, v: v.0, vs: v.1 }),
+                    None => model.e.push(ME { kid: if raw { ikid } else { kid }, ks: newk, v: v.0, vs: v.1 }),
                 }
-                st = 1;
+                st = if foreign { 3 } else { 1 };
             }
             (0, 2) | (0, 3) | (0, 4) => {
                 let v = next_val();
@@ -99,12 +102,12 @@ pub fn model_chain(model: &mut MapModel, api: i64, kid: u32, ks: u32, methods: &
                 let i = match occ {
                     Some(i) => i,
                     None => {
-                        model.e.push(ME { kid, ks: newk, v: v.0, vs: v.1 });
+                        model.e.push(ME { kid: if raw { ikid } else { kid }, ks: newk, v: v.0, vs: v.1 });
                         model.e.len() - 1
                     }
                 };
                 if raw {
-                    log.push(Ev::Key(kid, model.e[i].ks));
+                    log.push(Ev::Key(model.e[i].kid, model.e[i].ks));
                 }
                 log.push(Ev::Val(model.e[i].v, model.e[i].vs));
                 st = 3;
@@ -233,9 +236,9 @@ pub fn model_chain(model: &mut MapModel, api: i64, kid: u32, ks: u32, methods: &
             (2, 22) | (2, 24) | (2, 25) => {
                 let v = next_val();
                 let newk = if raw { next_key() } else { eks };
-                model.e.push(ME { kid, ks: newk, v: v.0, vs: v.1 });
+                model.e.push(ME { kid: if raw { ikid } else { kid }, ks: newk, v: v.0, vs: v.1 });
                 if raw {
-                    log.push(Ev::Key(kid, newk));
+                    log.push(Ev::Key(ikid, newk));
                 }
                 log.push(Ev::Val(v.0, v.1));
                 st = 3;
@@ -318,18 +321,32 @@ impl<K: KeyT, V: ValT> MapWorld<K, V> {
         let methods: Vec<i64> = op.v.iter().skip(1).copied().collect();
         let vals: Vec<V> = (0..4).map(|i| V::make((op.b as u32).wrapping_add(i) & !TOGGLE)).collect();
         let vtoks: Vec<(u32, u32)> = vals.iter().map(|v| (v.val(), v.serial())).collect();
-        let keys2: Vec<K> = if (2..=4).contains(&api) { (0..4).map(|_| K::make(kid)).collect() } else { Vec::new() };
+        // c == 2 on a raw entry for an absent key: the inserted key is another (absent) key than the one looked up
+        let foreign = (2..=4).contains(&api) && op.c == 2 && self.ctx.functional() && self.ctx.cfg.eq_mode == crate::state::EqMode::Lawful && self.slots[si].model.pos(kid).is_none() && K::UNIVERSE > 2;
+        let fk = if foreign {
+            let model = &self.slots[si].model;
+            (1..K::UNIVERSE).map(|j| (kid.wrapping_add(j)) % K::UNIVERSE).find(|c| *c != kid && model.pos(*c).is_none()).unwrap_or(kid)
+        } else {
+            kid
+        };
+        let foreign = foreign && fk != kid;
+        if foreign {
+            sim().probe(Probe::RawInsertOtherKey);
+        }
+        let keys2: Vec<K> = if (2..=4).contains(&api) { (0..4).map(|_| K::make(fk)).collect() } else { Vec::new() };
         let k2: Vec<u32> = if keys2.is_empty() { vec![0] } else { keys2.iter().map(|k| k.serial()).collect() };
         let own_key = if api == 5 { Some(K::make(kid)) } else { None };
         let ks = own_key.as_ref().map_or(0, |k| k.serial());
         let view_h = K::view(kid);
         let view: &K::View = &*view_h;
         let hash = self.slots[si].plan.hash(K::plan_id(kid));
+        // the explicit-hash inserts must be given the hash of the key that is inserted
+        let hash_ins = self.slots[si].plan.hash(K::plan_id(fk));
         let plan = self.slots[si].plan.clone();
         let mut fc = self.fctx(si, op);
         fc.toggles = true;
         fc.multi = methods.len() > 1;
-        fc.allowed = vtoks.iter().map(|v| (kid, v.0)).collect();
+        fc.allowed = vtoks.iter().flat_map(|v| [(kid, v.0), (fk, v.0)]).collect();
         fc.arg_serials = std::iter::once(ks).chain(vtoks.iter().map(|v| v.1)).chain(k2.iter().copied()).collect();
         self.note_entry_state(si);
         let mut expect_model = self.slots[si].model.clone();
@@ -340,7 +357,7 @@ impl<K: KeyT, V: ValT> MapWorld<K, V> {
                 None => vec![Ev::Occ(false)],
             }
         } else {
-            model_chain(&mut expect_model, api, kid, ks, &methods, &vtoks, &k2, Self::TG, K::BORROWS, if V::HAS_SERIAL { FRESH } else { 0 })
+            model_chain(&mut expect_model, api, kid, ks, &methods, &vtoks, &k2, Self::TG, K::BORROWS, if V::HAS_SERIAL { FRESH } else { 0 }, fk)
         };
         let m = self.slots[si].map.as_mut().unwrap();
         let mut spare_v: Vec<V> = Vec::new();
@@ -473,7 +490,15 @@ impl<K: KeyT, V: ValT> MapWorld<K, V> {
                             break;
                         }
                         st = match (st, mth) {
-                            (St::E(e), 1) => St::O(e.insert(keys2.next().unwrap(), vals.next().unwrap())),
+                            (St::E(e), 1) => {
+                                let o = e.insert(keys2.next().unwrap(), vals.next().unwrap());
+                                if foreign {
+                                    drop(o);
+                                    St::Done
+                                } else {
+                                    St::O(o)
+                                }
+                            }
                             (St::E(e), 2) => {
                                 let (k, v) = e.or_insert(keys2.next().unwrap(), vals.next().unwrap());
                                 log.push(Ev::Key(k.id(), k.serial()));
@@ -630,8 +655,8 @@ impl<K: KeyT, V: ValT> MapWorld<K, V> {
                                 let (key, val) = (keys2.next().unwrap(), vals.next().unwrap());
                                 let (k, v) = match mm {
                                     22 => v.insert(key, val),
-                                    24 => v.insert_hashed_nocheck(hash, key, val),
-                                    _ => v.insert_with_hasher(hash, key, val, |k| {
+                                    24 => v.insert_hashed_nocheck(hash_ins, key, val),
+                                    _ => v.insert_with_hasher(hash_ins, key, val, |k| {
                                         tick(Class::Hash);
                                         plan.hash(K::plan_id(k.id()))
                                     }),
